@@ -278,7 +278,12 @@ class CellModifierInput(DataInputAbstract):
             text = self._format_tree()
             if not self.in_cell_block:
                 text = _drop_final_continuation_mark(text)
-            return self.wrap_string_for_mcnp(text, mcnp_version, True)
+            lines = self.wrap_string_for_mcnp(text, mcnp_version, True)
+            # in a cell the parameter after this one may have stood on a new line: that line break is
+            # part of the cell's text (Cell.format_for_mcnp_input starts a continuation line after it)
+            if self.in_cell_block and lines and text.rstrip(" ").endswith("\n"):
+                lines.append("")
+            return lines
         return []
 
     @property
